@@ -44,7 +44,7 @@ PROPS = {
                 rule='feasible run in which an observation was postponed past its planned start, two started in one step, or a tier move happened',
                 nontrivial=lambda o: o['probes'].get('observation_postponed') or o['probes'].get('two_starts_same_step')
                 or o['probes'].get('tier_move')),
-    'C06': dict(jobs=[('sim', 'general', .4), ('sim', 'delay', .13), ('sim', 'units', .12), ('sim', 'adv', .1), ('taskdrv', '-', .25)], quick_n=4000,
+    'C06': dict(jobs=[('sim', 'general', .36), ('sim', 'delay', .11), ('sim', 'gdelay', .08), ('sim', 'units', .1), ('sim', 'adv', .1), ('taskdrv', '-', .25)], quick_n=4000,
                 rule='run with a zero-runtime or >=3-step task and at least one comparable pair of executions',
                 nontrivial=lambda o: (o['probes'].get('zero_runtime_task') or o['probes'].get('long_task')) and o['probes'].get('mono_pairs')),
     'C07': dict(jobs=[('sim', 'buffer', .6), ('buffer_ops', '-', .4)], quick_n=4000,
@@ -76,7 +76,7 @@ PROPS = {
     'C14': dict(jobs=[('sim', 'general', .6), ('plandrv', 'general', .4)], quick_n=3500,
                 rule='plan with >=4 nodes and a join (node with >=2 predecessors), or several observations planned at the same clock by direct planner calls',
                 nontrivial=lambda o: o['probes'].get('plan_with_join') or o['probes'].get('same_clock_plans')),
-    'C15': dict(jobs=[('delaymodel', '-', .6), ('sim', 'delay', .4)], quick_n=2500,
+    'C15': dict(jobs=[('delaymodel', '-', .55), ('sim', 'delay', .3), ('sim', 'gdelay', .15)], quick_n=2500,
                 rule='delay-model case where a draw fired, or a simulation in which a task was actually delayed',
                 nontrivial=lambda o: o['probes'].get('draws_fired') or o['probes'].get('delayed_task')),
     'C16': dict(jobs=[('units', 'units', 1.0)], quick_n=1500,
